@@ -95,7 +95,9 @@ func (w *World) planFor(prop string, cfg *RunCfg) []workItem {
 		if c.Trusted != "" || c.NoBody {
 			continue
 		}
-		items = append(items, workItem{fn: fn, opts: VerifyOpts{Props: map[string]bool{prop: true}, Safety: true, Vacuity: true, Level: prop == "C16"}, why: "contract"})
+		// a function that belongs to this property only through a scoped clause owes that clause
+		// here; its no-panic obligations are decided under the properties its contract names
+		items = append(items, workItem{fn: fn, opts: VerifyOpts{Props: map[string]bool{prop: true}, Safety: hasProp(c.Props, prop), Vacuity: true, Level: prop == "C16"}, why: "contract"})
 	}
 	for _, l := range w.Lemmas {
 		if hasProp(l.Props, prop) {
@@ -157,6 +159,9 @@ func cmdCheck(w *World, cfg *RunCfg, prop, replay string, t0 time.Time) int {
 	}
 	if prop == "C06" {
 		results = append(results, w.modeIndependence()...)
+	}
+	if prop == "C06" || prop == "C09" || prop == "C03" {
+		results = append(results, w.printerDelegation()...)
 	}
 	if prop == "C01" || prop == "C11" || prop == "C12" || prop == "C17" {
 		results = append(results, w.registryTable(prop)...)
